@@ -4,7 +4,7 @@ sequences with faults, and a catalogue of library blocks for the checkIntegrity 
 import common
 from common import quiet
 
-OPS = ('NewLogic', 'NewWire', 'AddIn', 'AddOut', 'AddInOut', 'Rename', 'Reparent', 'ReparentAndRename')
+OPS = ('NewLogic', 'NewWire', 'NewBidir', 'AddIn', 'AddOut', 'AddInOut', 'Rename', 'Reparent', 'ReparentAndRename')
 UNKNOWN = -99          # an object reachable from the real state that the harness did not create
 
 
@@ -77,9 +77,9 @@ class World:
                     self.objs.append(o)
                     if bool(o.isPrimitive()) != has_behaviour(o) or has_behaviour(o) != bool(prim):
                         self.prim_mismatch.append((len(self.objs) - 1, cls.__name__, bool(o.isPrimitive()), has_behaviour(o)))
-                elif k == 'NewWire':
+                elif k in ('NewWire', 'NewBidir'):
                     _, p, n, width = op
-                    w = py4hw.Wire(self.objs[p], nm(n), width)
+                    w = (py4hw.Wire if k == 'NewWire' else py4hw.BidirWire)(self.objs[p], nm(n), width)
                     self.wires.append(w)
                 elif k in ('AddIn', 'AddOut', 'AddInOut'):
                     _, o, n, w = op
@@ -123,9 +123,10 @@ def dump_graph(py4hw, objs, wires, ports, name_of):
                   [ix(pid, p) for p in o.inPorts], [ix(pid, p) for p in o.outPorts], [ix(pid, p) for p in o.inOutPorts]])
     W = []
     for w in wires:
-        src = w.getSource()
-        W.append([[ix(oid, w.parent), name_of(w.name), w.getWidth(), -1 if src is None else ix(pid, src)],
-                  [ix(pid, p) for p in w.getSinks()]])
+        bidir = isinstance(w, py4hw.BidirWire)
+        src = getattr(w, 'source', None)                      # a BidirWire has `sources` and no attribute `source`
+        W.append([[ix(oid, w.parent), name_of(w.name), w.getWidth(), -1 if src is None else ix(pid, src), 1 if bidir else 0],
+                  [ix(pid, p) for p in w.getSinks()], [ix(pid, p) for p in getattr(w, 'sources', [])]])
     P = []
     for p in ports:
         kind = 0 if isinstance(p, py4hw.InPort) else 1 if isinstance(p, py4hw.OutPort) else 2
@@ -157,7 +158,7 @@ def op_term(op):
     k = op[0]
     if k == 'NewLogic':
         return '(NewLogic %s %s %s)' % ('None' if op[1] is None else '(Some %s)' % nat(op[1]), common.zlit(op[2]), common.blit(op[3]))
-    if k == 'NewWire': return '(NewWire %s %s %s)' % (nat(op[1]), common.zlit(op[2]), common.zlit(op[3]))
+    if k in ('NewWire', 'NewBidir'): return '(%s %s %s %s)' % (k, nat(op[1]), common.zlit(op[2]), common.zlit(op[3]))
     if k in ('AddIn', 'AddOut', 'AddInOut'): return '(%s %s %s %s)' % (k, nat(op[1]), common.zlit(op[2]), nat(op[3]))
     if k == 'Rename': return '(Rename %s %s)' % (nat(op[1]), common.zlit(op[2]))
     if k == 'Reparent': return '(Reparent %s %s)' % (nat(op[1]), nat(op[2]))
@@ -193,14 +194,14 @@ def random_run(rng, n_ops, fault_rate=0.3, names=6):
             p = rng.randrange(no); n = rng.randrange(names)
             if fault and W.objs[p]._wires:
                 n = unnm(rng.choice(list(W.objs[p]._wires.keys())))
-            do(('NewWire', p, n, rng.choice([1, 1, 2, 8, 32])))
+            do(('NewWire' if rng.random() < 0.65 else 'NewBidir', p, n, rng.choice([1, 1, 2, 8, 32])))
         elif x < 0.72:
             kind = rng.choice(['AddIn', 'AddIn', 'AddOut', 'AddOut', 'AddOut', 'AddInOut'])
             o = rng.randrange(no); w = rng.randrange(nw)
             if kind != 'AddIn':
                 prims = [i for i, ob in enumerate(W.objs) if has_behaviour(ob)]
-                driven = [i for i, wr in enumerate(W.wires) if wr.getSource() is not None]
-                free = [i for i, wr in enumerate(W.wires) if wr.getSource() is None]
+                driven = [i for i, wr in enumerate(W.wires) if getattr(wr, 'source', None) is not None]
+                free = [i for i, wr in enumerate(W.wires) if getattr(wr, 'source', None) is None]
                 if fault and prims and driven: o, w = rng.choice(prims), rng.choice(driven)
                 elif not fault and free and rng.random() < 0.7: w = rng.choice(free)
             do((kind, o, rng.randrange(4), w))
@@ -265,6 +266,19 @@ DIRECTED = {
     'undriven_deep': [('NewLogic', None, 0, False), ('NewWire', 0, 0, 1), ('NewWire', 0, 1, 1), ('NewLogic', 0, 1, True), ('AddOut', 1, 0, 0),
                       ('NewLogic', 0, 2, False), ('NewLogic', 2, 0, False), ('NewLogic', 3, 0, False), ('AddIn', 4, 0, 0), ('AddOut', 4, 1, 1),
                       ('NewLogic', 0, 3, False), ('AddIn', 5, 0, 0)],
+    'bidir_dup_name': [('NewLogic', None, 0, False), ('NewWire', 0, 1, 1), ('NewBidir', 0, 1, 1), ('NewBidir', 0, 2, 1), ('NewWire', 0, 2, 1), ('NewBidir', 0, 2, 8)],
+    'bidir_rename_collision': [('NewLogic', None, 0, False), ('NewBidir', 0, 1, 1), ('NewWire', 0, 2, 1), ('NewBidir', 0, 3, 1), ('Rename', 0, 2), ('Rename', 0, 3),
+                               ('Rename', 0, 1), ('Rename', 0, 4), ('Rename', 1, 4), ('Rename', 2, 1)],
+    'bidir_reparent_collision': [('NewLogic', None, 0, False), ('NewLogic', 0, 1, False), ('NewBidir', 1, 5, 1), ('NewWire', 0, 5, 1), ('Reparent', 0, 0),
+                                 ('ReparentAndRename', 0, 0, 6), ('Reparent', 0, 1), ('NewBidir', 1, 5, 1), ('Reparent', 2, 0), ('Reparent', 1, 1),
+                                 ('ReparentAndRename', 2, 0, 7), ('Reparent', 2, 0)],
+    'bidir_reparent_onto_bidir': [('NewLogic', None, 0, False), ('NewLogic', 0, 1, False), ('NewLogic', 1, 0, False), ('NewBidir', 2, 5, 1), ('NewBidir', 0, 5, 1),
+                                  ('Reparent', 0, 0), ('Reparent', 0, 1), ('Reparent', 1, 1), ('ReparentAndRename', 1, 1, 6), ('Reparent', 1, 2),
+                                  ('ReparentAndRename', 0, 2, 6), ('ReparentAndRename', 0, 2, 5)],
+    'bidir_many_drivers': [('NewLogic', None, 0, False), ('NewBidir', 0, 0, 1), ('NewLogic', 0, 1, True), ('NewLogic', 0, 2, True), ('NewLogic', 0, 3, False),
+                           ('AddOut', 1, 0, 0), ('AddOut', 2, 0, 0), ('AddInOut', 1, 1, 0), ('AddInOut', 2, 1, 0), ('AddOut', 3, 0, 0), ('AddInOut', 3, 1, 0)],
+    'bidir_pad_read': [('NewLogic', None, 0, False), ('NewBidir', 0, 0, 1), ('NewWire', 0, 1, 1), ('NewLogic', 0, 1, True), ('NewLogic', 0, 2, True),
+                       ('AddInOut', 1, 0, 0), ('AddOut', 1, 1, 1), ('AddIn', 2, 0, 1)],
     'two_roots': [('NewLogic', None, 0, False), ('NewLogic', None, 0, True), ('NewWire', 0, 0, 1), ('NewWire', 1, 0, 1), ('AddOut', 1, 0, 0),
                   ('AddOut', 1, 0, 1), ('AddOut', 1, 0, 0), ('Reparent', 0, 1), ('ReparentAndRename', 0, 1, 1)],
 }
@@ -274,6 +288,8 @@ DIRECTED = {
 PAIR_SETUP = [('NewLogic', None, 0, False), ('NewLogic', 0, 1, True), ('NewLogic', 0, 2, True), ('NewLogic', 0, 3, False),
               ('NewWire', 0, 0, 1), ('NewWire', 0, 1, 1)]
 PAIR_CONTEXTS = {'clean': PAIR_SETUP,
+                 'bidir': PAIR_SETUP[:4] + [('NewBidir', 0, 0, 1), ('NewBidir', 0, 1, 1), ('NewBidir', 3, 1, 1)],
+                 'mixed': PAIR_SETUP[:4] + [('NewBidir', 0, 0, 1), ('NewWire', 0, 1, 1), ('NewWire', 3, 0, 1)],
                  'driven': PAIR_SETUP + [('AddOut', 1, 0, 0), ('AddIn', 2, 0, 0)],
                  'after_failed_rename': PAIR_SETUP + [('Rename', 0, 1)]}          # wire 0 is now in no table and is named like wire 1
 def pair_alphabet():
@@ -285,7 +301,7 @@ def pair_alphabet():
         A += [('Rename', w, n) for n in (0, 1, 2)]
         A += [('Reparent', w, p) for p in (0, 3)]
         A += [('ReparentAndRename', w, p, n) for p in (0, 3) for n in (0, 1)]
-    A += [('NewWire', p, n, 1) for p in (0, 3) for n in (0, 1)]
+    A += [('NewWire', p, n, 1) for p in (0, 3) for n in (0, 1)] + [('NewBidir', p, n, 1) for p in (0, 3) for n in (0, 1)]
     A += [('NewLogic', p, n, prim) for p in (0, 3) for n in (1, 4) for prim in (False, True)]
     return A
 
@@ -300,7 +316,7 @@ def dump_hierarchy(py4hw, top):
     objs, wires, ports = [], [], []
     seen_w, seen_p = set(), set()
     def addw(w):
-        if type(w) is not py4hw.Wire: raise NotSupported('wire of class %s' % type(w).__name__)
+        if type(w) not in (py4hw.Wire, py4hw.BidirWire): raise NotSupported('wire of class %s' % type(w).__name__)
         if id(w) not in seen_w: seen_w.add(id(w)); wires.append(w)
     def addp(p):
         if id(p) not in seen_p: seen_p.add(id(p)); ports.append(p)
